@@ -17,6 +17,44 @@ TOP = ('top',)
 UNIT = ('unit',)
 
 
+def assigns_record_end(b):
+    return any(s.k == 'assign' and [p['name'] for p in s.place.proj if p['k'] == 'field'] == ['buf_pos', 'pos', '1'] and not (s.rv.k == 'use' and s.rv.ops[0].is_const)
+               for blk in b.blocks if blk.idx in b.cfg.rset for s in blk.stmts)
+
+
+def validator_set(prog, fmt='fastq'):
+    """paths of the reader functions that count as "the validator": the one constructing the UnequalLengths error and every
+    reader function that reaches it without (itself or through its callees) completing a record - `validate` -> `invalid(..)`.
+    None when there is not exactly one constructing function."""
+    pre = '%s::Reader::' % fmt
+    vals = [b for b in prog.bodies.values() if b.key.startswith(pre) and b.promoted_of is None and any(
+        s.k == 'assign' and s.rv.k == 'agg' and s.rv.j.get('variant') == 'UnequalLengths' for blk in b.blocks for s in blk.stmts)]
+    if len(vals) != 1:
+        return None
+    memo = {}
+
+    def completes(b, stack=()):
+        if b.path in memo:
+            return memo[b.path]
+        if b.path in stack:
+            return False
+        r = assigns_record_end(b) or any(prog.local_callee_body(t.callee) is not None and prog.local_callee_body(t.callee).key.startswith(pre) and
+                                         completes(prog.local_callee_body(t.callee), stack + (b.path,)) for _, t in b.calls())
+        if not stack:
+            memo[b.path] = r
+        return r
+    vset = {vals[0].path}
+    grew = True
+    while grew:
+        grew = False
+        for b in prog.bodies.values():
+            if b.key.startswith(pre) and b.path not in vset and '{closure' not in b.key and not completes(b) and any(
+                    prog.local_callee_body(t.callee) is not None and prog.local_callee_body(t.callee).path in vset for _, t in b.calls()):
+                vset.add(b.path)
+                grew = True
+    return vset
+
+
 def B(v):
     return ('b', v)
 
@@ -66,6 +104,10 @@ class Interp:
         self.advance = self._find_advance()
         self.locate = self._find_locate()
         self.imprecise = set()
+        self._closure_bodies = None
+        self.full_cmps = {}
+        self.full_ids = {}
+        self.validators = validator_set(prog, fmt) or set()
         self.n_steps = 0
         self.call_ctx = []
         self.ret_trace = {}
@@ -353,6 +395,31 @@ class Interp:
 
     def write_place(self, body, pl, val, store, heap, stmt=None):
         base = store.get(pl.local, TOP)
+        proj = pl.proj
+        # a write through a captured reference of a closure (`(*(_1.0)).state = ..`): walk to the reference
+        if isinstance(base, tuple) and base and (base[0] == 'tuple' or (base[0] == 'rval' and isinstance(base[1], tuple) and base[1][:1] == ('tuple',))):
+            v = base
+            i = 0
+            while i < len(proj) and isinstance(v, tuple) and v and v[0] in ('tuple', 'rval'):
+                q = proj[i]
+                if q['k'] == 'deref' and v[0] == 'rval':
+                    v = v[1]
+                elif q['k'] == 'field' and v[0] == 'tuple' and q['i'] < len(v[1]):
+                    v = v[1][q['i']]
+                else:
+                    break
+                i += 1
+            if isinstance(v, tuple) and v and v[0] in ('rself', 'rselfp', 'rset', 'rsetp'):
+                base = v
+                proj = proj[i:]
+
+        class _P:
+            pass
+        if proj is not pl.proj:
+            pl2 = _P()
+            pl2.proj = proj
+            pl2.local = pl.local
+            pl = pl2
         ctx = None
         if base == ('rself',):
             ctx = ('self', ())
@@ -365,6 +432,10 @@ class Interp:
         if ctx is not None and pl.proj:
             path = ctx[1] + tuple(p['name'] for p in pl.proj if p['k'] == 'field')
             if ctx[0] == 'self':
+                if self.validators and path == ('buf_pos', 'pos', '1') and stmt is not None and not (stmt.rv.k == 'use' and stmt.rv.ops[0].is_const) and not (
+                        stmt.rv.k == 'bin' and not stmt.rv.ops[0].is_const and [q['name'] for q in stmt.rv.ops[0].place.proj if q['k'] == 'field'][-2:] == ['pos', '1']):
+                    heap['endset'] = True        # the end offset of the record: a record is being completed (not: shifted)
+                    heap['validated'] = False
                 if path == ('state',):
                     if isinstance(val, tuple) and val[0] == 'e':
                         heap['state'] = val[2]
@@ -476,8 +547,21 @@ class Interp:
                 if not rv.ops:
                     return UNIT
                 return ('tuple', tuple(self.eval_op(body, o, store, heap) for o in rv.ops))
+            if rv.j.get('closure'):
+                ups = []
+                for o in rv.ops:
+                    v = self.eval_op(body, o, store, heap)
+                    if isinstance(v, tuple) and v and v[0] == 'rlocal':
+                        v = ('rval', store.get(v[1], TOP))     # a captured local of the enclosing frame: by (snapshot) value
+                    ups.append(v)
+                return ('closure', rv.j['closure'], tuple(ups))
             return TOP
         if k == 'bin':
+            if rv.j['op'] in ('Lt', 'Le', 'Gt', 'Ge', 'Eq', 'Ne'):
+                fc = self.full_cmp(body, s)
+                if fc is not None:
+                    self.full_ids[id(rv)] = fc[0]
+                    return self.fresh_bool(rv)
             a = self.eval_op(body, rv.ops[0], store, heap)
             c = self.eval_op(body, rv.ops[1], store, heap)
             op = rv.j['op']
@@ -496,6 +580,10 @@ class Interp:
                 if r is None:
                     return self.fresh_bool(rv)
                 return B(r if op == 'Eq' else not r)
+            if op in ('Lt', 'Le', 'Gt', 'Ge', 'Eq', 'Ne') and ((a[0] == 'cnt' and c == TOP) or (c[0] == 'cnt' and a == TOP)):
+                # the number of records in the set is compared with a bound this abstraction cannot evaluate
+                # (e.g. `n_records.map_or(1, |n| n.max(1))`): whether the set may be left empty is not decidable here
+                self.imprecise.add('%s compares the record count of the set with a computed bound' % body.key)
             if op in ('Lt', 'Le', 'Gt', 'Ge'):
                 if a[0] == 'int' and c[0] == 'int':
                     return B({'Lt': a[1] < c[1], 'Le': a[1] <= c[1], 'Gt': a[1] > c[1], 'Ge': a[1] >= c[1]}[op])
@@ -577,8 +665,9 @@ class Interp:
         if k == 'assert':
             return [(t.j['target'], store, heap)]
         if k == 'switch':
-            if self.is_eof_switch(body, blk):
-                # which edge means "buffer is full" (length not less than the capacity)?
+            v0_ = self.eval_op(body, t.discr, store, heap)
+            if self.is_eof_switch(body, blk) and not (v0_[0] == 'b?' and len(v0_) > 1 and v0_[1] in self.full_ids):
+                # (a comparison the value-based recognition below did not identify) which edge means "buffer is full" (length not less than the capacity)?
                 full_t = self.full_edge(body, blk)
                 v0 = self.eval_op(body, t.discr, store, heap)
                 outs = []
@@ -591,6 +680,7 @@ class Interp:
                                         'an end-of-input verdict (buffer length < capacity) is taken although the buffer was altered in this call and not refilled', hp)
                     if full_t is not None:
                         hp['full'] = True if tg == full_t else hp.get('full')
+                        self.events['full-evidence'] += 1
                     st2 = dict(store)
                     if not t.discr.is_const and t.discr.place.is_local():
                         st2[t.discr.place.local] = B(val != 0) if val is not None else B(True)
@@ -619,6 +709,19 @@ class Interp:
                 if body.blocks[tg].term.k == 'unreachable' and not body.blocks[tg].stmts:
                     continue
                 st2 = dict(store)
+                hp_ = heap.copy()
+                if v[0] == 'b?' and len(v) > 1 and v[1] in self.full_ids:
+                    # the outcome of a comparison of the buffer length with its capacity (made here, or in a predicate function
+                    # whose result arrives here): the edge on which it says "full" is the evidence GROW-7 asks for
+                    truth = (val != 0) if val is not None else True
+                    pol = self.full_ids[v[1]]
+                    if hp_.get('filled') is False:
+                        self.violate_at('BUF-2', body, t.line, 'eof-verdict-on-unfilled-buffer',
+                                        'an end-of-input verdict (buffer length < capacity) is taken although the buffer was altered in this call and not refilled', hp_)
+                    if pol is not None:
+                        if (truth != (v[2] if len(v) > 2 else False)) == pol:
+                            hp_['full'] = True
+                        self.events['full-evidence'] += 1
                 if v[0] == 'b?':
                     truth = (val != 0) if val is not None else True
                     if not t.discr.is_const and t.discr.place.is_local():
@@ -629,7 +732,7 @@ class Interp:
                         for l2, v2 in list(st2.items()):
                             if isinstance(v2, tuple) and v2[:1] == ('b?',) and len(v2) > 1 and v2[1] == v[1]:
                                 st2[l2] = B(base_truth != (v2[2] if len(v2) > 2 else False))
-                outs.append((tg, st2, heap.copy()))
+                outs.append((tg, st2, hp_))
             return outs
         if k == 'call':
             return self.exec_call(body, blk, t, store, heap)
@@ -652,8 +755,12 @@ class Interp:
             for v in self.havoc(body.local_tys[t.dest.local] if t.dest.is_local() else ''):
                 finish(v, heap.copy())
             return outs
-        # reader code that runs inside a closure handed to a combinator (`seek(..).and_then(|_| fill_buf(..))`): its effects on
-        # the abstract state are not modelled -> the state-machine rules give no verdict for this format
+        # a combinator of Result / Option / bool with a closure: the closure body is interpreted like a callee
+        handled = self.exec_combinator(body, t, c, args, store, heap, finish)
+        if handled:
+            return outs
+        # reader code that runs inside a closure handed to anything else: its effects on the abstract state are not
+        # modelled -> the state-machine rules give no verdict for this format
         if c.path.startswith(('std::result::Result::', 'std::option::Option::')) and body.key.startswith(self.reader + '::'):
             for cl in self.prog.closures_of(body):
                 if any(a.is_const and a.j.get('closure') == cl.path for a in t.args) or any(
@@ -741,6 +848,26 @@ class Interp:
                 else:
                     finish(args[1] if good and len(args) > 1 else a, heap)
                 return outs
+        if path in ('std::result::Result::transpose', 'std::option::Option::transpose'):
+            a = args[0]
+            if a[0] == 'e' and a[1] == 'Result':          # Result<Option<T>, E> -> Option<Result<T, E>>
+                if a[2] == 'Err':
+                    finish(E('Option', 'Some', a), heap)
+                    return outs
+                inner = a[3][0] if a[3] else TOP
+                if inner[0] == 'e' and inner[1] == 'Option':
+                    finish(E('Option', 'None') if inner[2] == 'None' else E('Option', 'Some', E('Result', 'Ok', inner[3][0] if inner[3] else TOP)), heap)
+                    return outs
+            elif a[0] == 'e' and a[1] == 'Option':        # Option<Result<T, E>> -> Result<Option<T>, E>
+                if a[2] == 'None':
+                    finish(E('Result', 'Ok', E('Option', 'None')), heap)
+                    return outs
+                inner = a[3][0] if a[3] else TOP
+                if inner[0] == 'e' and inner[1] == 'Result':
+                    finish(inner if inner[2] == 'Err' else E('Result', 'Ok', E('Option', 'Some', inner[3][0] if inner[3] else TOP)), heap)
+                    return outs
+            if body.key.startswith(self.reader + '::'):
+                self.imprecise.add('%s: the value handed to %s is not known variant by variant' % (body.key, path))
         if path == 'std::option::Option::ok_or':
             a = args[0]
             if a[0] == 'e' and a[1] == 'Option':
@@ -885,8 +1012,15 @@ class Interp:
                     # the search reports an outcome that this abstraction cannot tie to a branch (e.g. `Ok(found)` computed from
                     # buffer contents): the ghost "a record is located" is then unreliable -> the FSM rules give no verdict
                     self.imprecise.add('the result of %s is a computed boolean, not a literal on each path' % cb.key)
+                if cb.path in self.validators:
+                    hp['validated'] = True
                 if cb.path in self.locate and rv == E('Result', 'Ok', B(True)):
                     hp['complete'] = True
+                    if self.validators:
+                        self.events['located-with-end'] += 1 if hp.get('endset') else 0
+                        if hp.get('endset') and not hp.get('validated'):
+                            self.violate('FSM-V', body, t, 'located-record-not-validated',
+                                         'the search reports a located record whose end offset was assigned in this call without the validator having run afterwards', hp)
                 finish(rv, hp)
             return outs
         if cb is not None and cb.arg_count >= 1 and args and isinstance(args[0], tuple) and args[0] and args[0][0] in ('rset', 'rsetp'):
@@ -906,6 +1040,122 @@ class Interp:
         for v in vals:
             finish(v, heap.copy())
         return outs
+
+    COMBINATORS = {
+        # path: (type of the receiver, variant on which the closure runs, what becomes of the closure's result)
+        'std::result::Result::and_then': ('Result', 'Ok', 'ret'),
+        'std::result::Result::map': ('Result', 'Ok', 'Ok'),
+        'std::result::Result::map_err': ('Result', 'Err', 'Err'),
+        'std::result::Result::or_else': ('Result', 'Err', 'ret'),
+        'std::result::Result::unwrap_or_else': ('Result', 'Err', 'val'),
+        'std::option::Option::map': ('Option', 'Some', 'Some'),
+        'std::option::Option::and_then': ('Option', 'Some', 'ret'),
+        'std::option::Option::filter': ('Option', 'Some', 'filter'),
+        'std::option::Option::ok_or_else': ('Option', 'None', 'Err'),
+        'std::option::Option::or_else': ('Option', 'None', 'ret'),
+        'std::option::Option::unwrap_or_else': ('Option', 'None', 'val'),
+        'core::bool::then': ('bool', True, 'Some'),
+    }
+
+    def closure_value(self, body, op, val):
+        """(closure body, upvars) of an operand that is a closure of this crate, else None"""
+        path = ups = None
+        if op.is_const and op.j.get('closure'):
+            path, ups = op.j['closure'], ()
+        elif isinstance(val, tuple) and val and val[0] == 'closure':
+            path, ups = val[1], val[2]
+        if path is None:
+            return None
+        if self._closure_bodies is None:
+            self._closure_bodies = {b.path: b for b in self.prog.bodies.values() if '{closure' in b.key and b.promoted_of is None}
+        cb = self._closure_bodies.get(path)
+        return (cb, ups) if cb is not None else None
+
+    def exec_combinator(self, body, t, c, args, store, heap, finish):
+        if c.path in ('std::option::Option::map_or', 'std::result::Result::map_or') and len(args) == 3:
+            # map_or(default, f): f(payload) on Some / Ok, the default otherwise
+            cv = self.closure_value(body, t.args[2], args[2])
+            if cv is None:
+                return False
+            cb, ups = cv
+            rty = 'Option' if 'Option' in c.path else 'Result'
+            good = 'Some' if rty == 'Option' else 'Ok'
+            recv = args[0]
+            cases = [(recv[2] == good, recv)] if (recv[0] == 'e' and recv[1] == rty) else [(True, E(rty, good, TOP)), (False, None)]
+            for runs, rv in cases:
+                hp = heap.copy()
+                if not runs:
+                    finish(args[1], hp)
+                    continue
+                clo = ('tuple', tuple(ups))
+                if cb.local_tys[1].startswith('&'):
+                    clo = ('rval', clo)
+                cargs = [clo] + ([rv[3][0] if rv[3] else TOP] if cb.arg_count >= 2 else [])
+                cargs += [TOP] * (cb.arg_count - len(cargs))
+                for (r, hp2) in self.run_fn(cb, hp, cargs):
+                    finish(r, hp2)
+            return True
+        spec = self.COMBINATORS.get(c.path)
+        if spec is None or len(args) != 2:
+            return False
+        cv = self.closure_value(body, t.args[1], args[1])
+        if cv is None:
+            return False
+        cb, ups = cv
+        rty, runs_on, what = spec
+        dest_ty = body.local_tys[t.dest.local]
+        recv = args[0]
+        # the cases of the receiver: (closure runs?, payload)
+        cases = []
+        if rty == 'bool':
+            if recv[0] == 'b':
+                cases = [(recv[1], None)]
+            else:
+                cases = [(True, None), (False, None)]
+        elif recv[0] == 'e' and recv[1] == rty:
+            cases = [(recv[2] == runs_on, recv)]
+        else:
+            good, bad = ('Ok', 'Err') if rty == 'Result' else ('Some', 'None')
+            cases = [(good == runs_on, E(rty, good, TOP)),
+                     (bad == runs_on, E('Result', 'Err', ('err', '?')) if rty == 'Result' else E('Option', 'None'))]
+        for runs, rv in cases:
+            hp = heap.copy()
+            if not runs:
+                if rty == 'bool':
+                    finish(E('Option', 'None'), hp)
+                elif what == 'val':
+                    finish(rv[3][0] if rv[3] else TOP, hp)
+                elif c.path == 'std::option::Option::ok_or_else':
+                    finish(E('Result', 'Ok', rv[3][0] if rv[3] else TOP), hp)
+                else:
+                    finish(rv, hp)
+                continue
+            payload = (rv[3][0] if rv[3] else TOP) if rv is not None else None
+            if what == 'filter':
+                payload = ('rval', payload)
+            clo = ('tuple', tuple(ups))
+            if cb.local_tys[1].startswith('&'):
+                clo = ('rval', clo)
+            cargs = [clo] + ([payload] if cb.arg_count >= 2 else [])
+            cargs += [TOP] * (cb.arg_count - len(cargs))
+            for (r, hp2) in self.run_fn(cb, hp, cargs):
+                if what == 'ret' or what == 'val':
+                    finish(r, hp2)
+                elif what == 'Ok':
+                    if r == TOP and dest_ty.startswith('std::result::Result<(),'):
+                        r = UNIT
+                    finish(E('Result', 'Ok', r), hp2)
+                elif what == 'Err':
+                    finish(E('Result', 'Err', r if isinstance(r, tuple) and r[:1] == ('err',) else ('err', '?')), hp2)
+                elif what == 'Some':
+                    finish(E('Option', 'Some', r), hp2)
+                elif what == 'filter':
+                    if r[0] == 'b':
+                        finish(rv if r[1] else E('Option', 'None'), hp2)
+                    else:
+                        finish(rv, hp2.copy())
+                        finish(E('Option', 'None'), hp2.copy())
+        return True
 
     def convert_err(self, callee, e):
         if e[0] != 'err':
@@ -964,6 +1214,35 @@ class Interp:
                 if op == 'Ne':
                     return zero
         return None
+
+    def full_cmp(self, body, s):
+        """(polarity,) if the statement compares the length of the reader's buffer with its capacity: polarity True when the
+        result `true` means "the buffer is full", False when it means "not full", None for a comparison that means neither
+        (`len <= capacity`)"""
+        key = (body.path, id(s))
+        if key in self.full_cmps:
+            return self.full_cmps[key]
+        import rules_err
+        from mir import data_deps
+        rules_err._PROG[0] = self.prog
+        du = DefUse(body)
+        res = None
+        sides = []
+        for o in s.rv.ops:
+            calls = [x[1].callee for x in data_deps(body, o, du) if x[0] == 'call' and x[1].callee]
+            sides.append((any(c.is_('buffer_redux::BufReader::capacity') for c in calls),
+                          any(c.path.endswith('slice::len') or c.name == 'len' for c in calls) and any(rules_err.is_buffer_call(self.prog, c) for c in calls)))
+        if len(sides) == 2 and ((sides[0] == (False, True) and sides[1] == (True, False)) or (sides[0] == (True, False) and sides[1] == (False, True))):
+            first_is_len = sides[0][1]
+            op = s.rv.j['op']
+            pol = {('Lt', True): False, ('Ge', True): True, ('Gt', False): False, ('Le', False): True}.get((op, first_is_len))
+            if op == 'Eq':
+                pol = True
+            if op == 'Ne':
+                pol = False
+            res = (pol,)
+        self.full_cmps[key] = res
+        return res
 
     def is_eof_switch(self, body, blk):
         key = (body.path, blk)
